@@ -6,6 +6,7 @@ import (
 	"bytes"
 	"encoding/json"
 	"fmt"
+	"strings"
 	"testing"
 	"time"
 
@@ -22,7 +23,7 @@ const client = "client1"
 // Inject is one rogue message.
 type Inject struct {
 	At      int    `json:"at"`      // delivered just before the At-th honest message
-	Caller  string `json:"caller"`  // client | unknown | empty | none | bystander-peer
+	Caller  string `json:"caller"`  // client | unknown | empty | bystander-peer | peer-upper | peer-prefix | peer-suffix | peer-space
 	Message string `json:"message"` // prepare | execute | contribute | commit | abort
 }
 
@@ -120,6 +121,14 @@ func run(c *Case) (*outcome, *vkit.Violation, error) {
 			fromName = "nobody-in-particular"
 		case "empty", "none":
 			fromName = ""
+		case "peer-upper": // near misses of a real peer's name: none of them is a configured peer
+			fromName = strings.ToUpper(vkit.NodeName(0))
+		case "peer-prefix":
+			fromName = vkit.NodeName(0)[:len(vkit.NodeName(0))-1]
+		case "peer-suffix":
+			fromName = vkit.NodeName(0) + "1"
+		case "peer-space":
+			fromName = vkit.NodeName(1) + " "
 		case "bystander-peer":
 			// a configured peer that takes no part in this generation
 			for i, id := range c.IDs {
@@ -309,7 +318,7 @@ func TestC16(t *testing.T) {
 	if vkit.ReplayOnly() {
 		return
 	}
-	if v := idle([]string{client, "nobody", ""}); v != nil {
+	if v := idle([]string{client, "nobody", "", strings.ToUpper(vkit.NodeName(1)), vkit.NodeName(1) + "0", vkit.NodeName(1)[:5]}); v != nil {
 		vkit.Report(t, "C16", "TestC16", map[string]any{"idle": true}, v)
 	}
 	vkit.S.Class("idle-instance-probed")
@@ -324,7 +333,7 @@ func TestC16(t *testing.T) {
 		for i := 0; i < ni; i++ {
 			c.Injects = append(c.Injects, Inject{
 				At:      rapid.IntRange(0, total-1).Draw(rt, "at"),
-				Caller:  rapid.SampledFrom([]string{"client", "client", "unknown", "empty", "bystander-peer"}).Draw(rt, "caller"),
+				Caller:  rapid.SampledFrom([]string{"client", "client", "unknown", "empty", "bystander-peer", "peer-upper", "peer-prefix", "peer-suffix", "peer-space"}).Draw(rt, "caller"),
 				Message: rapid.SampledFrom([]string{"prepare", "execute", "contribute", "commit", "abort"}).Draw(rt, "message"),
 			})
 		}
